@@ -230,6 +230,9 @@ func TestCheck(t *testing.T) {
 		return
 	}
 
+	ev.RapidCheck(t, "stdlib-callers", ev.N(4000, 60000), 3, func(rt *rapid.T) { stdlibCallers(rt, rec) })
+	rec.Unfreeze()
+
 	n := ev.N(2500, 30000)
 	ev.RapidCheck(t, "pair", n, 1, func(rt *rapid.T) {
 		recov := gen.Uniform(rt, 100, "recover") < 35
@@ -332,6 +335,23 @@ func TestCheck(t *testing.T) {
 // runReplays re-executes both runs of every committed replay file.
 func runReplays(t *testing.T, rec *ev.Rec) {
 	for _, rf := range rec.Replays() {
+		var probe struct {
+			Kind string `json:"kind"`
+		}
+		if json.Unmarshal(rf.Case, &probe) == nil && probe.Kind == "stdlib-caller" {
+			var sc stdCase
+			if err := json.Unmarshal(rf.Case, &sc); err != nil {
+				t.Errorf("replay %s: %v", rf.Path, err)
+				continue
+			}
+			rec.Case()
+			if sig, what := sc.judge(rec); sig != "" {
+				if !rec.Violation(sig, "replay "+rf.Path+": "+what, &sc) {
+					t.Errorf("replay %s: %s", rf.Path, what)
+				}
+			}
+			continue
+		}
 		var c replayCase
 		if err := json.Unmarshal(rf.Case, &c); err != nil {
 			t.Errorf("bad replay %s: %v", rf.Path, err)
